@@ -11,6 +11,7 @@ import (
 	wrapping "github.com/hashicorp/go-kms-wrapping/v2"
 	"github.com/hashicorp/nodeenrollment"
 	"github.com/hashicorp/nodeenrollment/types"
+	"google.golang.org/protobuf/encoding/protowire"
 	"google.golang.org/protobuf/proto"
 	"google.golang.org/protobuf/types/known/structpb"
 	"google.golang.org/protobuf/types/known/timestamppb"
@@ -103,6 +104,15 @@ func sameEpochKey(a, b *epochKeys) bool {
 }
 
 func randomMessage(r *kernel.Run) proto.Message {
+	m := randomMessage0(r)
+	if r.Tape.Draw(8) == 0 {
+		// a peer built from a newer schema: fields this build does not know travel along and come back out
+		m.ProtoReflect().SetUnknown(protowire.AppendVarint(protowire.AppendTag(nil, protowire.Number(1000+r.Tape.Draw(50)), protowire.VarintType), uint64(r.Tape.Draw(1<<20))))
+	}
+	return m
+}
+
+func randomMessage0(r *kernel.Run) proto.Message {
 	tp := r.Tape
 	rb := func(n int) []byte { b := make([]byte, n); rand.Read(b); return b }
 	switch tp.Draw(8) {
